@@ -1,73 +1,138 @@
 import FCA.Proofs.FormatsStr
 /-
-The csv reader (`csvParse`, a model of `csv.reader` with the excel dialect) inverts the csv writer
-(`csvRow`, `QUOTE_MINIMAL`) on every list of non-empty rows, whatever the field contents.
+The csv reader (`csvRead`, a model of `csv.reader` with the excel dialect fed by the lines of an
+`io.StringIO`) reads back what *any* RFC 4180 writer emits (`csvTextQ`: every field may be quoted,
+records end in CR LF or LF), in particular what `csv.writer` (`csvRow`, `QUOTE_MINIMAL`) emits.
 -/
 namespace FCA
 
-/-! ### single steps of the reader's state machine -/
+/-! ### the reader as one pass over the text
+
+`csvRecords` follows `Reader_iternext` line by line. For the proofs the same computation is written
+as one pass over the characters: the `EOL` event is processed after every `\n` and after the last
+character of the text. -/
+
+/-- a record is yielded in front of the remaining ones -/
+def csvEmit (r : List Str) (x : List (List Str) × Bool) : List (List Str) × Bool := (r :: x.1, x.2)
+
+def csvFlat (s : CsvSt) : Str → List (List Str) × Bool
+  | [] => csvRecords s []
+  | c :: cs =>
+    match csvChar s (some c) with
+    | none => ([], true)
+    | some s1 =>
+      if c == '\n' || cs.isEmpty then
+        match csvChar s1 none with
+        | none => ([], true)
+        | some s2 =>
+          if s2.state == .startRecord then csvEmit s2.row (csvFlat .init cs) else csvFlat s2 cs
+      else csvFlat s1 cs
+
+theorem csvLines_eq_nil {t : Str} : csvLines t = [] ↔ t = [] := by
+  cases t with
+  | nil => simp [csvLines]
+  | cons c cs =>
+    simp only [csvLines]
+    split
+    · simp
+    · split <;> simp
+
+theorem csvRecords_line1 (s : CsvSt) (c : Char) (ls : List Str) :
+    csvRecords s ([c] :: ls) =
+      match csvChar s (some c) with
+      | none => ([], true)
+      | some s1 =>
+        match csvChar s1 none with
+        | none => ([], true)
+        | some s2 =>
+          if s2.state == .startRecord then csvEmit s2.row (csvRecords .init ls)
+          else csvRecords s2 ls := by
+  rw [csvRecords]
+  simp only [csvLine]
+  cases csvChar s (some c) with
+  | none => rfl
+  | some s1 =>
+    simp only [Option.bind_some]
+    cases csvChar s1 none with
+    | none => rfl
+    | some s2 => rfl
+
+theorem csvRecords_cons_cons (s : CsvSt) (c : Char) (l : Str) (ls : List Str) :
+    csvRecords s ((c :: l) :: ls) =
+      match csvChar s (some c) with
+      | none => ([], true)
+      | some s1 => csvRecords s1 (l :: ls) := by
+  rw [csvRecords]
+  simp only [csvLine]
+  cases csvChar s (some c) with
+  | none => rfl
+  | some s1 =>
+    simp only [Option.bind_some]
+    rw [csvRecords]
+
+/-- the line-by-line reader is the one-pass reader -/
+theorem csvRecords_csvLines (s : CsvSt) (t : Str) : csvRecords s (csvLines t) = csvFlat s t := by
+  induction t generalizing s with
+  | nil => rfl
+  | cons c cs ih =>
+    by_cases hc : c = '\n'
+    · subst hc
+      have e : csvLines ('\n' :: cs) = ['\n'] :: csvLines cs := by simp [csvLines]
+      rw [e, csvRecords_line1, csvFlat]
+      simp only [beq_self_eq_true, Bool.true_or, if_true, ih]
+    · by_cases hcs : cs = []
+      · subst hcs
+        have e : csvLines [c] = [[c]] := by simp [csvLines, hc]
+        rw [e, csvRecords_line1, csvFlat]
+        simp only [List.isEmpty_nil, Bool.or_true, if_true]
+        rfl
+      · obtain ⟨l, ls, hl⟩ : ∃ l ls, csvLines cs = l :: ls := by
+          cases h : csvLines cs with
+          | nil => exact absurd (csvLines_eq_nil.1 h) hcs
+          | cons l ls => exact ⟨l, ls, rfl⟩
+        have e : csvLines (c :: cs) = (c :: l) :: ls := by simp [csvLines, hc, hl]
+        have hne : cs.isEmpty = false := by cases cs <;> simp_all
+        rw [e, csvRecords_cons_cons, csvFlat]
+        have hcb : (c == '\n') = false := by simpa using hc
+        simp only [hcb, hne, Bool.or_self, Bool.false_eq_true, if_false, ← hl, ih]
+
+theorem csvRead_eq (t : Str) : csvRead t = csvFlat .init t := csvRecords_csvLines _ t
+
+/-! ### single steps -/
+
+/-- a character that is not the line feed, in the middle of the text -/
+theorem csvFlat_mid {s s1 : CsvSt} {c : Char} {rest : Str} (hc : c ≠ '\n') (hr : rest ≠ [])
+    (h : csvChar s (some c) = some s1) : csvFlat s (c :: rest) = csvFlat s1 rest := by
+  have hne : rest.isEmpty = false := by cases rest <;> simp_all
+  rw [csvFlat, h]
+  simp [hc, hne]
+
+/-- a line feed that ends a record -/
+theorem csvFlat_lf {s s1 s2 : CsvSt} {rest : Str} (h1 : csvChar s (some '\n') = some s1)
+    (h2 : csvChar s1 none = some s2) (h3 : s2.state = .startRecord) :
+    csvFlat s ('\n' :: rest) = csvEmit s2.row (csvFlat .init rest) := by
+  rw [csvFlat, h1]
+  simp [h2, h3]
 
 section steps
-variable (f : Nat) (rest field : Str) (row : List Str) (rows : List (List Str))
+variable (fld : Str) (row : List Str) (rest : Str)
 
-theorem go_eatCrnl_end : csvParse.go (f+1) .eatCrnl [] field row rows = some rows := rfl
-theorem go_startRecord_end : csvParse.go (f+1) .startRecord [] field row rows = some rows := rfl
+theorem csvFlat_startRecord_char {c : Char} (h1 : c ≠ '\n') (h2 : c ≠ '\r') :
+    csvFlat ⟨.startRecord, fld, row⟩ (c :: rest) = csvFlat ⟨.startField, fld, row⟩ (c :: rest) := by
+  have : csvChar ⟨.startRecord, fld, row⟩ (some c) = csvChar ⟨.startField, fld, row⟩ (some c) := by
+    simp [csvChar, h1, h2, csvStartField, CsvSt.save, CsvSt.add]
+  rw [csvFlat, csvFlat, this]
 
-theorem go_startRecord_char {c : Char} (h1 : c ≠ '\n') (h2 : c ≠ '\r') :
-    csvParse.go (f+1) .startRecord (c :: rest) field row rows =
-      csvParse.go f .startField (c :: rest) [] [] rows := by
-  simp [csvParse.go, h1, h2]
-
-theorem go_eatCrnl_char {c : Char} (h1 : c ≠ '\n') (h2 : c ≠ '\r') :
-    csvParse.go (f+1) .eatCrnl (c :: rest) field row rows =
-      csvParse.go f .startRecord (c :: rest) [] [] rows := by
-  simp [csvParse.go, h1, h2]
-
-theorem go_eatCrnl_nl : csvParse.go (f+1) .eatCrnl ('\n' :: rest) field row rows =
-    csvParse.go f .eatCrnl rest [] [] rows := rfl
-
-theorem go_startField_cr : csvParse.go (f+1) .startField ('\r' :: rest) field row rows =
-    csvParse.go f .eatCrnl rest [] [] (rows ++ [row ++ [[]]]) := rfl
-
-theorem go_startField_quote : csvParse.go (f+1) .startField ('"' :: rest) field row rows =
-    csvParse.go f .inQuoted rest [] row rows := rfl
-
-theorem go_startField_comma : csvParse.go (f+1) .startField (',' :: rest) field row rows =
-    csvParse.go f .startField rest [] (row ++ [[]]) rows := rfl
-
-theorem go_startField_char {c : Char} (h1 : c ≠ '\n') (h2 : c ≠ '\r') (h3 : c ≠ '"')
-    (h4 : c ≠ ',') :
-    csvParse.go (f+1) .startField (c :: rest) field row rows =
-      csvParse.go f .inField rest [c] row rows := by
-  simp [csvParse.go, h1, h2, h3, h4]
-
-theorem go_inField_cr : csvParse.go (f+1) .inField ('\r' :: rest) field row rows =
-    csvParse.go f .eatCrnl rest [] [] (rows ++ [row ++ [field.reverse]]) := rfl
-
-theorem go_inField_comma : csvParse.go (f+1) .inField (',' :: rest) field row rows =
-    csvParse.go f .startField rest [] (row ++ [field.reverse]) rows := rfl
-
-theorem go_inField_char {c : Char} (h1 : c ≠ '\n') (h2 : c ≠ '\r') (h4 : c ≠ ',') :
-    csvParse.go (f+1) .inField (c :: rest) field row rows =
-      csvParse.go f .inField rest (c :: field) row rows := by
-  simp [csvParse.go, h1, h2, h4]
-
-theorem go_inQuoted_quote : csvParse.go (f+1) .inQuoted ('"' :: rest) field row rows =
-    csvParse.go f .quoteInQuoted rest field row rows := rfl
-
-theorem go_inQuoted_char {c : Char} (h : c ≠ '"') :
-    csvParse.go (f+1) .inQuoted (c :: rest) field row rows =
-      csvParse.go f .inQuoted rest (c :: field) row rows := by
-  simp [csvParse.go, h]
-
-theorem go_qiq_quote : csvParse.go (f+1) .quoteInQuoted ('"' :: rest) field row rows =
-    csvParse.go f .inQuoted rest ('"' :: field) row rows := rfl
-
-theorem go_qiq_comma : csvParse.go (f+1) .quoteInQuoted (',' :: rest) field row rows =
-    csvParse.go f .startField rest [] (row ++ [field.reverse]) rows := rfl
-
-theorem go_qiq_cr : csvParse.go (f+1) .quoteInQuoted ('\r' :: rest) field row rows =
-    csvParse.go f .eatCrnl rest [] [] (rows ++ [row ++ [field.reverse]]) := rfl
+theorem csvFlat_inQuoted_char {c : Char} (h : c ≠ '"') (hl : fld.length < csvFieldLimit) :
+    csvFlat ⟨.inQuoted, fld, row⟩ (c :: rest) = csvFlat ⟨.inQuoted, c :: fld, row⟩ rest := by
+  have h1 : csvChar ⟨.inQuoted, fld, row⟩ (some c) = some ⟨.inQuoted, c :: fld, row⟩ := by
+    simp [csvChar, h, CsvSt.add, Nat.not_le.2 hl]
+  have h2 : csvChar ⟨.inQuoted, c :: fld, row⟩ none = some ⟨.inQuoted, c :: fld, row⟩ := rfl
+  rw [csvFlat, h1]
+  simp only [h2]
+  split
+  · rfl
+  · rfl
 
 end steps
 
@@ -79,15 +144,40 @@ def csvSpecial (c : Char) : Bool := c == ',' || c == '"' || c == '\r' || c == '\
 /-- quote doubling -/
 def csvEsc (s : Str) : Str := s.flatMap fun c => if c == '"' then ['"', '"'] else [c]
 
-theorem csvField_eq (s : Str) :
-    csvField s = if s.any csvSpecial then ['"'] ++ csvEsc s ++ ['"'] else s := rfl
+/-- a field as an RFC 4180 writer may write it: quoted when it has to be (`,`, `"`, CR, LF inside)
+or when the writer likes (`q`); quotes inside are doubled -/
+def csvFieldQ (q : Bool) (s : Str) : Str :=
+  if q || s.any csvSpecial then ['"'] ++ csvEsc s ++ ['"'] else s
 
-theorem csvField_raw {s : Str} (h : s.any csvSpecial = false) : csvField s = s := by
-  rw [csvField_eq, h]; rfl
+/-- record terminator: CR LF, or a bare LF -/
+def csvTerm (crlf : Bool) : Str := if crlf then ['\r', '\n'] else ['\n']
 
-theorem csvField_quoted {s : Str} (h : s.any csvSpecial = true) :
-    csvField s = '"' :: (csvEsc s ++ ['"']) := by
-  rw [csvField_eq, h]; rfl
+/-- a record: fields (each with its quoting choice) joined by `,`, then the terminator -/
+def csvRowQ (crlf : Bool) (fields : List (Bool × Str)) : Str :=
+  joinWith [','] (fields.map fun f => csvFieldQ f.1 f.2) ++ csvTerm crlf
+
+/-- a record can be written: it has a field, and a single empty field is quoted (otherwise the
+record would be an empty line) -/
+def CsvRowOk (fields : List (Bool × Str)) : Prop := fields ≠ [] ∧ fields ≠ [(false, [])]
+
+instance (fields : List (Bool × Str)) : Decidable (CsvRowOk fields) := by
+  unfold CsvRowOk; infer_instance
+
+/-- a text: records with their choice of terminator -/
+def csvTextQ (rows : List (Bool × List (Bool × Str))) : Str := rows.flatMap fun r => csvRowQ r.1 r.2
+
+theorem csvField_eq (s : Str) : csvField s = csvFieldQ false s := by
+  unfold csvField csvFieldQ csvEsc
+  simp only [Bool.false_or]
+  rfl
+
+theorem csvFieldQ_raw {s : Str} (h : s.any csvSpecial = false) : csvFieldQ false s = s := by
+  simp [csvFieldQ, h]
+
+theorem csvFieldQ_quoted {q : Bool} {s : Str} (h : q = true ∨ s.any csvSpecial = true) :
+    csvFieldQ q s = '"' :: (csvEsc s ++ ['"']) := by
+  have : (q || s.any csvSpecial) = true := by rcases h with h | h <;> simp [h]
+  simp only [csvFieldQ, this, if_true]; rfl
 
 theorem csvEsc_cons_quote (s : Str) : csvEsc ('"' :: s) = '"' :: '"' :: csvEsc s := rfl
 
@@ -101,247 +191,516 @@ theorem not_special {s : Str} (h : s.any csvSpecial = false) :
   simp only [csvSpecial, Bool.or_eq_true, beq_iff_eq, not_or] at this
   tauto
 
-theorem go_inField_run (s : Str) (hs : ∀ c ∈ s, c ≠ ',' ∧ c ≠ '"' ∧ c ≠ '\r' ∧ c ≠ '\n')
-    (f : Nat) (rest field : Str) (row : List Str) (rows : List (List Str)) :
-    csvParse.go (f + s.length) .inField (s ++ rest) field row rows =
-      csvParse.go f .inField rest (s.reverse ++ field) row rows := by
-  induction s generalizing field with
+theorem csvFlat_inField_run (s : Str) (hs : ∀ c ∈ s, c ≠ ',' ∧ c ≠ '"' ∧ c ≠ '\r' ∧ c ≠ '\n')
+    (fld : Str) (row : List Str) (rest : Str) (hr : rest ≠ [])
+    (hl : fld.length + s.length ≤ csvFieldLimit) :
+    csvFlat ⟨.inField, fld, row⟩ (s ++ rest) = csvFlat ⟨.inField, s.reverse ++ fld, row⟩ rest := by
+  induction s generalizing fld with
   | nil => rfl
   | cons c cs ih =>
     have hc := hs c (by simp)
-    rw [List.length_cons, ← Nat.add_assoc, List.cons_append,
-      go_inField_char _ _ _ _ _ hc.2.2.2 hc.2.2.1 hc.1, ih (fun x hx => hs x (by simp [hx]))]
+    simp only [List.length_cons] at hl
+    have h1 : csvChar ⟨.inField, fld, row⟩ (some c) = some ⟨.inField, c :: fld, row⟩ := by
+      simp [csvChar, hc.1, hc.2.2.1, hc.2.2.2, CsvSt.add, Nat.not_le.2 (show fld.length < csvFieldLimit by omega)]
+    rw [List.cons_append, csvFlat_mid hc.2.2.2 (by simp [hr]) h1,
+      ih (fun x hx => hs x (by simp [hx])) _ (by simp only [List.length_cons]; omega)]
     simp
 
-theorem go_inQuoted_run (s : Str) (f : Nat) (rest field : Str) (row : List Str)
-    (rows : List (List Str)) :
-    csvParse.go (f + (csvEsc s).length) .inQuoted (csvEsc s ++ rest) field row rows =
-      csvParse.go f .inQuoted rest (s.reverse ++ field) row rows := by
-  induction s generalizing field with
+theorem csvFlat_inQuoted_run (s : Str) (fld : Str) (row : List Str) (rest : Str) (hr : rest ≠ [])
+    (hl : fld.length + s.length ≤ csvFieldLimit) :
+    csvFlat ⟨.inQuoted, fld, row⟩ (csvEsc s ++ rest) =
+      csvFlat ⟨.inQuoted, s.reverse ++ fld, row⟩ rest := by
+  induction s generalizing fld with
   | nil => rfl
   | cons c cs ih =>
+    simp only [List.length_cons] at hl
+    have hlt : fld.length < csvFieldLimit := by omega
     by_cases hc : c = '"'
     · subst hc
-      rw [csvEsc_cons_quote, List.length_cons, List.length_cons, ← Nat.add_assoc, ← Nat.add_assoc,
-        List.cons_append, List.cons_append, go_inQuoted_quote, go_qiq_quote, ih]
+      have h1 : csvChar ⟨.inQuoted, fld, row⟩ (some '"') = some ⟨.quoteInQuoted, fld, row⟩ := rfl
+      have h2 : csvChar ⟨.quoteInQuoted, fld, row⟩ (some '"') = some ⟨.inQuoted, '"' :: fld, row⟩ := by
+        simp [csvChar, CsvSt.add, Nat.not_le.2 hlt]
+      rw [csvEsc_cons_quote, List.cons_append, List.cons_append,
+        csvFlat_mid (by decide) (by simp) h1, csvFlat_mid (by decide) (by simp [hr]) h2,
+        ih _ (by simp only [List.length_cons]; omega)]
       simp
-    · rw [csvEsc_cons_char hc, List.length_cons, ← Nat.add_assoc, List.cons_append,
-        go_inQuoted_char _ _ _ _ _ hc, ih]
-      simp
-
-/-- a written field followed by the delimiter is read back as that field -/
-theorem go_field_comma (s : Str) (f : Nat) (rest : Str) (row : List Str) (rows : List (List Str)) :
-    csvParse.go (f + (csvField s).length + 1) .startField (csvField s ++ ',' :: rest) [] row rows =
-      csvParse.go f .startField rest [] (row ++ [s]) rows := by
-  by_cases h : s.any csvSpecial = true
-  · rw [csvField_quoted h]
-    have e1 : ('"' :: (csvEsc s ++ ['"'])) ++ ',' :: rest =
-        '"' :: (csvEsc s ++ ('"' :: ',' :: rest)) := by simp
-    have e2 : f + ('"' :: (csvEsc s ++ ['"'])).length + 1 = (f + 2 + (csvEsc s).length) + 1 := by
-      simp only [List.length_cons, List.length_append, List.length_nil]; omega
-    rw [e1, e2, go_startField_quote, go_inQuoted_run, go_inQuoted_quote, go_qiq_comma]
-    simp
-  · have h' : s.any csvSpecial = false := by simpa using h
-    rw [csvField_raw h']
-    cases s with
-    | nil => exact go_startField_comma _ _ _ _ _
-    | cons c cs =>
-      have hs := not_special h'
-      have hc := hs c (by simp)
-      have e2 : f + (c :: cs).length + 1 = (f + 1 + cs.length) + 1 := by
-        simp only [List.length_cons]; omega
-      rw [e2, List.cons_append, go_startField_char _ _ _ _ _ hc.2.2.2 hc.2.2.1 hc.2.1 hc.1,
-        go_inField_run cs (fun x hx => hs x (by simp [hx])), go_inField_comma]
+    · rw [csvEsc_cons_char hc, List.cons_append, csvFlat_inQuoted_char _ _ _ hc hlt,
+        ih _ (by simp only [List.length_cons]; omega)]
       simp
 
-/-- a written field followed by the line terminator ends the record -/
-theorem go_field_cr (s : Str) (f : Nat) (rest : Str) (row : List Str) (rows : List (List Str)) :
-    csvParse.go (f + (csvField s).length + 1) .startField (csvField s ++ '\r' :: rest) [] row rows =
-      csvParse.go f .eatCrnl rest [] [] (rows ++ [row ++ [s]]) := by
-  by_cases h : s.any csvSpecial = true
-  · rw [csvField_quoted h]
-    have e1 : ('"' :: (csvEsc s ++ ['"'])) ++ '\r' :: rest =
-        '"' :: (csvEsc s ++ ('"' :: '\r' :: rest)) := by simp
-    have e2 : f + ('"' :: (csvEsc s ++ ['"'])).length + 1 = (f + 2 + (csvEsc s).length) + 1 := by
-      simp only [List.length_cons, List.length_append, List.length_nil]; omega
-    rw [e1, e2, go_startField_quote, go_inQuoted_run, go_inQuoted_quote, go_qiq_cr]
+/-- the reader has seen a complete field but not yet its delimiter -/
+def CsvSt.fieldDone (s : CsvSt) : Prop :=
+  s.state = .startField ∨ s.state = .inField ∨ s.state = .quoteInQuoted
+
+/-- a written field, read from the start-of-field state: afterwards the reader holds the field's
+characters and waits for the delimiter or the end of the line -/
+theorem csvFlat_field (q : Bool) (f : Str) (hf : f.length ≤ csvFieldLimit) (row : List Str) :
+    ∃ s' : CsvSt, s'.fieldDone ∧ s'.field = f.reverse ∧ s'.row = row ∧
+      ∀ rest, rest ≠ [] →
+        csvFlat ⟨.startField, [], row⟩ (csvFieldQ q f ++ rest) = csvFlat s' rest := by
+  by_cases h : q = true ∨ f.any csvSpecial = true
+  · refine ⟨⟨.quoteInQuoted, f.reverse, row⟩, Or.inr (Or.inr rfl), rfl, rfl, ?_⟩
+    intro rest hr
+    rw [csvFieldQ_quoted h]
+    have e1 : ('"' :: (csvEsc f ++ ['"'])) ++ rest = '"' :: (csvEsc f ++ ('"' :: rest)) := by simp
+    have h1 : csvChar ⟨.startField, [], row⟩ (some '"') = some ⟨.inQuoted, [], row⟩ := rfl
+    have h2 : csvChar ⟨.inQuoted, f.reverse ++ [], row⟩ (some '"') =
+        some ⟨.quoteInQuoted, f.reverse ++ [], row⟩ := rfl
+    rw [e1, csvFlat_mid (by decide) (by simp) h1,
+      csvFlat_inQuoted_run f [] row _ (by simp) (by simpa using hf),
+      csvFlat_mid (by decide) hr h2]
     simp
-  · have h' : s.any csvSpecial = false := by simpa using h
-    rw [csvField_raw h']
-    cases s with
-    | nil => exact go_startField_cr _ _ _ _ _
+  · have hq : q = false := by cases q <;> simp_all
+    have h' : f.any csvSpecial = false := by simpa using fun h2 => h (Or.inr h2)
+    subst hq
+    rw [csvFieldQ_raw h']
+    cases f with
+    | nil => exact ⟨⟨.startField, [], row⟩, Or.inl rfl, rfl, rfl, fun rest _ => rfl⟩
     | cons c cs =>
+      refine ⟨⟨.inField, (c :: cs).reverse, row⟩, Or.inr (Or.inl rfl), rfl, rfl, ?_⟩
+      intro rest hr
       have hs := not_special h'
       have hc := hs c (by simp)
-      have e2 : f + (c :: cs).length + 1 = (f + 1 + cs.length) + 1 := by
-        simp only [List.length_cons]; omega
-      rw [e2, List.cons_append, go_startField_char _ _ _ _ _ hc.2.2.2 hc.2.2.1 hc.2.1 hc.1,
-        go_inField_run cs (fun x hx => hs x (by simp [hx])), go_inField_cr]
+      simp only [List.length_cons] at hf
+      have h1 : csvChar ⟨.startField, [], row⟩ (some c) = some ⟨.inField, [c], row⟩ := by
+        simp [csvChar, csvStartField, hc.1, hc.2.1, hc.2.2.1, hc.2.2.2, CsvSt.add, csvFieldLimit]
+      rw [List.cons_append, csvFlat_mid hc.2.2.2 (by simp [hr]) h1,
+        csvFlat_inField_run cs (fun x hx => hs x (by simp [hx])) _ _ _ hr
+          (by simp only [List.length_cons, List.length_nil]; omega)]
       simp
+
+/-- the delimiter after a complete field -/
+theorem csvFlat_comma {s : CsvSt} (h : s.fieldDone) {rest : Str} (hr : rest ≠ []) :
+    csvFlat s (',' :: rest) = csvFlat ⟨.startField, [], s.row ++ [s.field.reverse]⟩ rest := by
+  obtain ⟨st, fld, row⟩ := s
+  apply csvFlat_mid (by decide) hr
+  rcases h with h | h | h <;> (simp only at h; subst h; rfl)
+
+/-- the record terminator after a complete field: the record is yielded -/
+theorem csvFlat_term {s : CsvSt} (h : s.fieldDone) (crlf : Bool) (rest : Str) :
+    csvFlat s (csvTerm crlf ++ rest) =
+      csvEmit (s.row ++ [s.field.reverse]) (csvFlat .init rest) := by
+  obtain ⟨st, fld, row⟩ := s
+  have hlf : csvFlat ⟨.eatCrnl, [], row ++ [fld.reverse]⟩ ('\n' :: rest) =
+      csvEmit (row ++ [fld.reverse]) (csvFlat .init rest) := by
+    exact csvFlat_lf (s1 := ⟨.eatCrnl, [], row ++ [fld.reverse]⟩)
+      (s2 := ⟨.startRecord, [], row ++ [fld.reverse]⟩) rfl rfl rfl
+  cases crlf
+  · -- bare LF
+    change csvFlat _ ('\n' :: rest) = _
+    rcases h with h | h | h <;> (simp only at h; subst h)
+    all_goals
+      exact csvFlat_lf (s1 := ⟨.eatCrnl, [], row ++ [fld.reverse]⟩)
+        (s2 := ⟨.startRecord, [], row ++ [fld.reverse]⟩) rfl rfl rfl
+  · change csvFlat _ ('\r' :: '\n' :: rest) = _
+    have h1 : csvChar ⟨st, fld, row⟩ (some '\r') = some ⟨.eatCrnl, [], row ++ [fld.reverse]⟩ := by
+      rcases h with h | h | h <;> (simp only at h; subst h; rfl)
+    rw [csvFlat_mid (by decide) (by simp) h1]
+    exact hlf
 
 /-! ### rows -/
 
-/-- the fields of a row joined by the delimiter -/
-def csvBody (fields : List Str) : Str := joinWith [','] (fields.map csvField)
+/-- the fields of a record joined by the delimiter -/
+def csvBodyQ (fields : List (Bool × Str)) : Str :=
+  joinWith [','] (fields.map fun f => csvFieldQ f.1 f.2)
 
-theorem csvBody_cons_cons (s t : Str) (l : List Str) :
-    csvBody (s :: t :: l) = csvField s ++ ',' :: csvBody (t :: l) := by
-  simp [csvBody, joinWith]
+theorem csvBodyQ_cons_cons (f g : Bool × Str) (l : List (Bool × Str)) :
+    csvBodyQ (f :: g :: l) = csvFieldQ f.1 f.2 ++ ',' :: csvBodyQ (g :: l) := by
+  simp [csvBodyQ, joinWith]
 
-theorem csvBody_single (s : Str) : csvBody [s] = csvField s := rfl
+theorem csvBodyQ_single (f : Bool × Str) : csvBodyQ [f] = csvFieldQ f.1 f.2 := rfl
 
-theorem go_body (fields : List Str) (hne : fields ≠ []) (f : Nat) (rest : Str) (row : List Str)
-    (rows : List (List Str)) :
-    csvParse.go (f + (csvBody fields).length + 2) .startField
-        (csvBody fields ++ '\r' :: '\n' :: rest) [] row rows =
-      csvParse.go f .eatCrnl rest [] [] (rows ++ [row ++ fields]) := by
+theorem csvRowQ_eq (crlf : Bool) (fields : List (Bool × Str)) :
+    csvRowQ crlf fields = csvBodyQ fields ++ csvTerm crlf := rfl
+
+theorem csvTerm_ne_nil (crlf : Bool) : csvTerm crlf ≠ [] := by cases crlf <;> simp [csvTerm]
+
+/-- a written record is read back (from the start-of-field state) -/
+theorem csvFlat_body (fields : List (Bool × Str)) (hne : fields ≠ [])
+    (hl : ∀ f ∈ fields, f.2.length ≤ csvFieldLimit) (crlf : Bool) (row : List Str) (rest : Str) :
+    csvFlat ⟨.startField, [], row⟩ (csvBodyQ fields ++ (csvTerm crlf ++ rest)) =
+      csvEmit (row ++ fields.map (·.2)) (csvFlat .init rest) := by
   induction fields generalizing row with
   | nil => contradiction
-  | cons s l ih =>
+  | cons f l ih =>
+    obtain ⟨s', hd, hfld, hrow, hrun⟩ := csvFlat_field f.1 f.2 (hl f (by simp)) row
     cases l with
     | nil =>
-      rw [csvBody_single]
-      have e : f + (csvField s).length + 2 = (f + 1) + (csvField s).length + 1 := by omega
-      rw [e, go_field_cr, go_eatCrnl_nl]
-    | cons t l =>
-      rw [csvBody_cons_cons]
-      have e : f + (csvField s ++ ',' :: csvBody (t :: l)).length + 2 =
-          (f + (csvBody (t :: l)).length + 2) + (csvField s).length + 1 := by
-        simp only [List.length_append, List.length_cons]; omega
-      rw [e, List.append_assoc, List.cons_append, go_field_comma, ih (by simp)]
+      rw [csvBodyQ_single, hrun _ (by simp [csvTerm_ne_nil]), csvFlat_term hd, hfld, hrow]
+      simp
+    | cons g l =>
+      rw [csvBodyQ_cons_cons, List.append_assoc, hrun _ (by simp), List.cons_append,
+        csvFlat_comma hd (by simp [csvTerm_ne_nil]), hfld, hrow,
+        ih (by simp) (fun x hx => hl x (by simp [hx]))]
       simp
 
-theorem csvRow_eq_body {fields : List Str} (h : fields ≠ [[]]) :
-    csvRow fields = csvBody fields ++ ['\r', '\n'] := by
-  unfold csvRow csvBody
-  split
-  · contradiction
-  · rfl
-
-theorem csvRow_single_empty : csvRow [[]] = ['"', '"', '\r', '\n'] := rfl
-
-/-- a written row is read back as that row (from the start-of-field state) -/
-theorem go_row (fields : List Str) (hne : fields ≠ []) (f : Nat) (rest : Str)
-    (rows : List (List Str)) :
-    csvParse.go (f + (csvRow fields).length) .startField (csvRow fields ++ rest) [] [] rows =
-      csvParse.go f .eatCrnl rest [] [] (rows ++ [fields]) := by
-  by_cases h : fields = [[]]
-  · subst h
-    rw [csvRow_single_empty]
-    rfl
-  · rw [csvRow_eq_body h]
-    have e : f + (csvBody fields ++ ['\r', '\n']).length = f + (csvBody fields).length + 2 := by
-      simp only [List.length_append, List.length_cons, List.length_nil]; omega
-    rw [e, List.append_assoc]
-    have := go_body fields hne f rest [] rows
-    simpa using this
-
-theorem csvField_head {a : Str} (ha : a ≠ []) :
-    ∃ c cs, csvField a = c :: cs ∧ c ≠ '\n' ∧ c ≠ '\r' := by
-  by_cases h : a.any csvSpecial = true
-  · exact ⟨'"', _, csvField_quoted h, by decide, by decide⟩
-  · have h' : a.any csvSpecial = false := by simpa using h
-    cases a with
-    | nil => contradiction
-    | cons c cs =>
-      have := not_special h' c (by simp)
-      exact ⟨c, cs, csvField_raw h', this.2.2.2, this.2.2.1⟩
-
-/-- a written row never starts with a line-break character -/
-theorem csvRow_head {fields : List Str} (hne : fields ≠ []) :
-    ∃ c cs, csvRow fields = c :: cs ∧ c ≠ '\n' ∧ c ≠ '\r' := by
-  by_cases h : fields = [[]]
-  · subst h; exact ⟨'"', _, rfl, by decide, by decide⟩
-  · rw [csvRow_eq_body h]
-    cases fields with
-    | nil => contradiction
-    | cons a l =>
+/-- a writable record never starts with a line-break character -/
+theorem csvBodyQ_head {fields : List (Bool × Str)} (h : CsvRowOk fields) (tail : Str) :
+    ∃ c cs, csvBodyQ fields ++ tail = c :: cs ∧ c ≠ '\n' ∧ c ≠ '\r' := by
+  obtain ⟨hne, hse⟩ := h
+  cases fields with
+  | nil => contradiction
+  | cons f l =>
+    obtain ⟨q, a⟩ := f
+    by_cases hq : q = true ∨ a.any csvSpecial = true
+    · cases l with
+      | nil =>
+        exact ⟨'"', _, by rw [csvBodyQ_single, csvFieldQ_quoted hq]; rfl, by decide, by decide⟩
+      | cons g l =>
+        exact ⟨'"', _, by rw [csvBodyQ_cons_cons, csvFieldQ_quoted hq]; rfl, by decide, by decide⟩
+    · have hq' : q = false := by cases q <;> simp_all
+      have h' : a.any csvSpecial = false := by simpa using fun h2 => hq (Or.inr h2)
+      subst hq'
       cases a with
       | nil =>
         cases l with
-        | nil => contradiction
-        | cons t l =>
-          refine ⟨',', csvBody (t :: l) ++ ['\r', '\n'], ?_, by decide, by decide⟩
-          rw [csvBody_cons_cons]; rfl
+        | nil => exact absurd rfl hse
+        | cons g l =>
+          exact ⟨',', _, by rw [csvBodyQ_cons_cons, csvFieldQ_raw h']; rfl, by decide, by decide⟩
       | cons c cs =>
-        obtain ⟨d, ds, hd, h1, h2⟩ := csvField_head (a := c :: cs) (by simp)
+        have hc := not_special h' c (by simp)
         cases l with
-        | nil => exact ⟨d, ds ++ ['\r', '\n'], by rw [csvBody_single, hd]; rfl, h1, h2⟩
-        | cons t l =>
-          exact ⟨d, ds ++ ',' :: csvBody (t :: l) ++ ['\r', '\n'],
-            by rw [csvBody_cons_cons, hd]; simp, h1, h2⟩
+        | nil =>
+          exact ⟨c, _, by rw [csvBodyQ_single, csvFieldQ_raw h']; rfl, hc.2.2.2, hc.2.2.1⟩
+        | cons g l =>
+          exact ⟨c, _, by rw [csvBodyQ_cons_cons, csvFieldQ_raw h']; rfl, hc.2.2.2, hc.2.2.1⟩
 
-theorem csvRow_length_ge (fields : List Str) : 2 ≤ (csvRow fields).length := by
-  unfold csvRow
-  simp only [List.length_append, List.length_cons, List.length_nil]; omega
-
-/-- a record read at the beginning of the text -/
-theorem go_record_sr (fields : List Str) (hne : fields ≠ []) (f : Nat) (rest : Str)
-    (rows : List (List Str)) :
-    csvParse.go (f + (csvRow fields).length + 1) .startRecord (csvRow fields ++ rest) [] [] rows =
-      csvParse.go f .eatCrnl rest [] [] (rows ++ [fields]) := by
-  obtain ⟨c, cs, hc, h1, h2⟩ := csvRow_head hne
-  have := go_row fields hne f rest rows
+/-- a written record at the beginning of a line is read back and yielded -/
+theorem csvFlat_row (crlf : Bool) (fields : List (Bool × Str)) (hok : CsvRowOk fields)
+    (hl : ∀ f ∈ fields, f.2.length ≤ csvFieldLimit) (rest : Str) :
+    csvFlat .init (csvRowQ crlf fields ++ rest) =
+      csvEmit (fields.map (·.2)) (csvFlat .init rest) := by
+  rw [csvRowQ_eq, List.append_assoc]
+  obtain ⟨c, cs, hc, h1, h2⟩ := csvBodyQ_head hok (csvTerm crlf ++ rest)
+  have := csvFlat_body fields hok.1 hl crlf [] rest
   rw [hc] at this ⊢
-  rw [List.cons_append, go_startRecord_char _ _ _ _ _ h1 h2]
-  exact this
-
-/-- a record read after the previous line terminator -/
-theorem go_record_ec (fields : List Str) (hne : fields ≠ []) (f : Nat) (rest : Str)
-    (rows : List (List Str)) :
-    csvParse.go (f + (csvRow fields).length + 2) .eatCrnl (csvRow fields ++ rest) [] [] rows =
-      csvParse.go f .eatCrnl rest [] [] (rows ++ [fields]) := by
-  obtain ⟨c, cs, hc, h1, h2⟩ := csvRow_head hne
-  have := go_record_sr fields hne f rest rows
-  rw [hc] at this ⊢
-  rw [List.cons_append, go_eatCrnl_char _ _ _ _ _ h1 h2]
-  exact this
+  change csvFlat ⟨.startRecord, [], []⟩ _ = _
+  rw [csvFlat_startRecord_char _ _ _ h1 h2, this]
+  simp
 
 /-! ### whole text -/
 
-/-- steps needed to read the rows -/
-def csvCost : List (List Str) → Nat
-  | [] => 0
-  | r :: rs => (csvRow r).length + 2 + csvCost rs
-
-theorem csvCost_le (rs : List (List Str)) : csvCost rs ≤ 2 * (rs.flatMap csvRow).length := by
-  induction rs with
-  | nil => simp [csvCost]
-  | cons r rs ih =>
-    have := csvRow_length_ge r
-    simp only [csvCost, List.flatMap_cons, List.length_append]; omega
-
-theorem go_rows (rs : List (List Str)) (h : ∀ r ∈ rs, r ≠ []) (acc : List (List Str)) (fuel : Nat)
-    (hf : csvCost rs + 1 ≤ fuel) :
-    csvParse.go fuel .eatCrnl (rs.flatMap csvRow) [] [] acc = some (acc ++ rs) := by
-  induction rs generalizing acc fuel with
-  | nil =>
-    obtain ⟨f, rfl⟩ : ∃ f, fuel = f + 1 := ⟨fuel - 1, by omega⟩
-    simp [go_eatCrnl_end]
-  | cons r rs ih =>
-    simp only [csvCost] at hf
-    obtain ⟨f, rfl⟩ : ∃ f, fuel = f + (csvRow r).length + 2 := ⟨fuel - (csvRow r).length - 2, by omega⟩
-    rw [List.flatMap_cons, go_record_ec r (h r (by simp)),
-      ih (fun x hx => h x (by simp [hx])) _ _ (by omega)]
-    simp
-
-/-- `csv.reader` inverts `csv.writer` on every list of non-empty rows -/
-theorem csvParse_rows (rs : List (List Str)) (h : ∀ r ∈ rs, r ≠ []) :
-    csvParse (rs.flatMap csvRow) = some rs := by
-  unfold csvParse
-  cases rs with
+/-- the reader yields the records of a text written by any RFC 4180 writer, then goes on with
+whatever follows -/
+theorem csvFlat_textQ_append (rows : List (Bool × List (Bool × Str)))
+    (h : ∀ r ∈ rows, CsvRowOk r.2 ∧ ∀ f ∈ r.2, f.2.length ≤ csvFieldLimit) (rest : Str) :
+    csvFlat .init (csvTextQ rows ++ rest) =
+      ((rows.map fun r => r.2.map (·.2)) ++ (csvFlat .init rest).1, (csvFlat .init rest).2) := by
+  induction rows with
   | nil => rfl
-  | cons r rs =>
-    have hc := csvCost_le rs
-    have hl := csvRow_length_ge r
-    rw [List.flatMap_cons] at *
-    obtain ⟨f, hf⟩ : ∃ f, 2 * (csvRow r ++ rs.flatMap csvRow).length + 4 =
-        f + (csvRow r).length + 1 :=
-      ⟨2 * (csvRow r ++ rs.flatMap csvRow).length + 4 - (csvRow r).length - 1, by
-        simp only [List.length_append]; omega⟩
-    rw [hf, go_record_sr r (h r (by simp)),
-      go_rows rs (fun x hx => h x (by simp [hx])) _ _ (by
-        simp only [List.length_append] at hf; omega)]
+  | cons r rs ih =>
+    have hr := h r (by simp)
+    rw [csvTextQ, List.flatMap_cons, List.append_assoc, csvFlat_row r.1 r.2 hr.1 hr.2]
+    rw [csvTextQ] at ih
+    rw [ih (fun x hx => h x (by simp [hx]))]
+    rfl
+
+theorem csvRead_textQ_append (rows : List (Bool × List (Bool × Str)))
+    (h : ∀ r ∈ rows, CsvRowOk r.2 ∧ ∀ f ∈ r.2, f.2.length ≤ csvFieldLimit) (rest : Str) :
+    csvRead (csvTextQ rows ++ rest) =
+      ((rows.map fun r => r.2.map (·.2)) ++ (csvRead rest).1, (csvRead rest).2) := by
+  rw [csvRead_eq, csvRead_eq, csvFlat_textQ_append rows h]
+
+/-- the reader yields exactly the records of a text written by any RFC 4180 writer -/
+theorem csvRead_textQ (rows : List (Bool × List (Bool × Str)))
+    (h : ∀ r ∈ rows, CsvRowOk r.2 ∧ ∀ f ∈ r.2, f.2.length ≤ csvFieldLimit) :
+    csvRead (csvTextQ rows) = (rows.map fun r => r.2.map (·.2), false) := by
+  have := csvRead_textQ_append rows h []
+  rw [List.append_nil] at this
+  rw [this]
+  simp [csvRead, csvLines, csvRecords, CsvSt.init]
+
+/-- a blank line (CR LF or LF) at the beginning of a record is the empty record `[]` -/
+theorem csvRead_blank (crlf : Bool) (rest : Str) :
+    csvRead (csvTerm crlf ++ rest) = ([] :: (csvRead rest).1, (csvRead rest).2) := by
+  rw [csvRead_eq, csvRead_eq]
+  have hlf : ∀ rest, csvFlat ⟨.eatCrnl, [], []⟩ ('\n' :: rest) = csvEmit [] (csvFlat .init rest) := by
+    intro rest
+    exact csvFlat_lf (s1 := ⟨.eatCrnl, [], []⟩) (s2 := ⟨.startRecord, [], []⟩) rfl rfl rfl
+  cases crlf
+  · change csvFlat _ ('\n' :: rest) = _
+    exact csvFlat_lf (s := .init) (s1 := ⟨.eatCrnl, [], []⟩) (s2 := ⟨.startRecord, [], []⟩)
+      rfl rfl rfl
+  · change csvFlat _ ('\r' :: '\n' :: rest) = _
+    rw [csvFlat_mid (s := .init) (s1 := ⟨.eatCrnl, [], []⟩) (by decide) (by simp) rfl]
+    exact hlf rest
+
+/-! ### a last record without terminator (RFC 4180, rule 2)
+
+The end of the text is the end of the last line: the `EOL` event comes right after the last
+character. -/
+
+theorem csvFlat_nil_init : csvFlat .init [] = ([], false) := by
+  simp [csvFlat, csvRecords, CsvSt.init]
+
+/-- the last character of the text, when it completes a record -/
+theorem csvFlat_last {s s1 s2 : CsvSt} {c : Char} (h1 : csvChar s (some c) = some s1)
+    (h2 : csvChar s1 none = some s2) (h3 : s2.state = .startRecord) :
+    csvFlat s [c] = ([s2.row], false) := by
+  rw [csvFlat, h1]
+  simp [h2, h3, csvFlat_nil_init, csvEmit]
+
+theorem csvFlat_inField_run_end (s : Str) (hne : s ≠ [])
+    (hs : ∀ c ∈ s, c ≠ ',' ∧ c ≠ '"' ∧ c ≠ '\r' ∧ c ≠ '\n')
+    (fld : Str) (row : List Str) (hl : fld.length + s.length ≤ csvFieldLimit) :
+    csvFlat ⟨.inField, fld, row⟩ s = ([row ++ [(s.reverse ++ fld).reverse]], false) := by
+  induction s generalizing fld with
+  | nil => contradiction
+  | cons c cs ih =>
+    have hc := hs c (by simp)
+    simp only [List.length_cons] at hl
+    have h1 : csvChar ⟨.inField, fld, row⟩ (some c) = some ⟨.inField, c :: fld, row⟩ := by
+      simp [csvChar, hc.1, hc.2.2.1, hc.2.2.2, CsvSt.add,
+        Nat.not_le.2 (show fld.length < csvFieldLimit by omega)]
+    cases cs with
+    | nil =>
+      rw [csvFlat_last h1 (s2 := ⟨.startRecord, [], row ++ [(c :: fld).reverse]⟩) rfl rfl]
+      simp
+    | cons d ds =>
+      rw [csvFlat_mid hc.2.2.2 (by simp) h1,
+        ih (by simp) (fun x hx => hs x (by simp [hx])) _ (by simp only [List.length_cons] at hl ⊢; omega)]
+      simp
+
+/-- a written field at the very end of the text (it is not the empty non-escaped field) -/
+theorem csvFlat_field_end (q : Bool) (f : Str) (hf : f.length ≤ csvFieldLimit) (row : List Str)
+    (hne : csvFieldQ q f ≠ []) :
+    csvFlat ⟨.startField, [], row⟩ (csvFieldQ q f) = ([row ++ [f]], false) := by
+  by_cases h : q = true ∨ f.any csvSpecial = true
+  · rw [csvFieldQ_quoted h]
+    have h1 : csvChar ⟨.startField, [], row⟩ (some '"') = some ⟨.inQuoted, [], row⟩ := rfl
+    have h2 : csvChar ⟨.inQuoted, f.reverse ++ [], row⟩ (some '"') =
+        some ⟨.quoteInQuoted, f.reverse ++ [], row⟩ := rfl
+    rw [csvFlat_mid (by decide) (by simp) h1,
+      csvFlat_inQuoted_run f [] row _ (by simp) (by simpa using hf),
+      csvFlat_last h2 (s2 := ⟨.startRecord, [], row ++ [(f.reverse ++ []).reverse]⟩) rfl rfl]
     simp
+  · have hq : q = false := by cases q <;> simp_all
+    have h' : f.any csvSpecial = false := by simpa using fun h2 => h (Or.inr h2)
+    subst hq
+    rw [csvFieldQ_raw h'] at hne ⊢
+    cases f with
+    | nil => contradiction
+    | cons c cs =>
+      have hs := not_special h'
+      have hc := hs c (by simp)
+      simp only [List.length_cons] at hf
+      have h1 : csvChar ⟨.startField, [], row⟩ (some c) = some ⟨.inField, [c], row⟩ := by
+        simp [csvChar, csvStartField, hc.1, hc.2.1, hc.2.2.1, hc.2.2.2, CsvSt.add, csvFieldLimit]
+      cases cs with
+      | nil =>
+        rw [csvFlat_last h1 (s2 := ⟨.startRecord, [], row ++ [[c]]⟩) rfl rfl]
+      | cons d ds =>
+        rw [csvFlat_mid hc.2.2.2 (by simp) h1,
+          csvFlat_inField_run_end (d :: ds) (by simp) (fun x hx => hs x (by simp [hx])) _ _
+            (by simp only [List.length_cons, List.length_nil] at hf ⊢; omega)]
+        simp
+
+/-- a delimiter at the very end of the text: an empty last field -/
+theorem csvFlat_comma_end {s : CsvSt} (h : s.fieldDone) :
+    csvFlat s [','] = ([s.row ++ [s.field.reverse] ++ [[]]], false) := by
+  obtain ⟨st, fld, row⟩ := s
+  have h1 : csvChar ⟨st, fld, row⟩ (some ',') = some ⟨.startField, [], row ++ [fld.reverse]⟩ := by
+    rcases h with h | h | h <;> (simp only at h; subst h; rfl)
+  rw [csvFlat_last h1 (s2 := ⟨.startRecord, [], row ++ [fld.reverse] ++ [[]]⟩) rfl rfl]
+
+theorem csvFlat_body_end (fields : List (Bool × Str)) (hne : csvBodyQ fields ≠ [])
+    (hl : ∀ f ∈ fields, f.2.length ≤ csvFieldLimit) (row : List Str) :
+    csvFlat ⟨.startField, [], row⟩ (csvBodyQ fields) = ([row ++ fields.map (·.2)], false) := by
+  induction fields generalizing row with
+  | nil => exact absurd rfl hne
+  | cons f l ih =>
+    cases l with
+    | nil =>
+      rw [csvBodyQ_single] at hne ⊢
+      rw [csvFlat_field_end f.1 f.2 (hl f (by simp)) row hne]
+      simp
+    | cons g l =>
+      obtain ⟨s', hd, hfld, hrow, hrun⟩ := csvFlat_field f.1 f.2 (hl f (by simp)) row
+      rw [csvBodyQ_cons_cons, hrun _ (by simp)]
+      by_cases hb : csvBodyQ (g :: l) = []
+      · -- the rest is a single empty non-escaped field
+        have hgl : (g :: l).map (·.2) = [[]] := by
+          cases l with
+          | nil =>
+            rw [csvBodyQ_single] at hb
+            have : g.2 = [] := by
+              unfold csvFieldQ at hb
+              split at hb
+              · simp at hb
+              · exact hb
+            simp [this]
+          | cons x xs =>
+            rw [csvBodyQ_cons_cons] at hb
+            simp at hb
+        rw [hb, csvFlat_comma_end hd, hfld, hrow, List.map_cons, hgl]
+        simp
+      · rw [csvFlat_comma hd hb, hfld, hrow, ih hb (fun x hx => hl x (by simp [hx]))]
+        simp
+
+/-- a writable record at the very end of the text, without terminator -/
+theorem csvFlat_row_end (fields : List (Bool × Str)) (hok : CsvRowOk fields)
+    (hl : ∀ f ∈ fields, f.2.length ≤ csvFieldLimit) :
+    csvFlat .init (csvBodyQ fields) = ([fields.map (·.2)], false) := by
+  obtain ⟨c, cs, hc, h1, h2⟩ := csvBodyQ_head hok []
+  rw [List.append_nil] at hc
+  have := csvFlat_body_end fields (by rw [hc]; simp) hl []
+  rw [hc] at this ⊢
+  change csvFlat ⟨.startRecord, [], []⟩ _ = _
+  rw [csvFlat_startRecord_char _ _ _ h1 h2, this]
+  simp
+
+/-- records, the last one without terminator -/
+theorem csvRead_textQ_open (rows : List (Bool × List (Bool × Str))) (last : List (Bool × Str))
+    (h : ∀ r ∈ rows, CsvRowOk r.2 ∧ ∀ f ∈ r.2, f.2.length ≤ csvFieldLimit)
+    (hok : CsvRowOk last) (hl : ∀ f ∈ last, f.2.length ≤ csvFieldLimit) :
+    csvRead (csvTextQ rows ++ csvBodyQ last) =
+      ((rows.map fun r => r.2.map (·.2)) ++ [last.map (·.2)], false) := by
+  rw [csvRead_eq, csvFlat_textQ_append rows h, csvFlat_row_end last hok hl]
+
+/-! ### the field size limit -/
+
+theorem csvFlat_error {s : CsvSt} {c : Char} (h : csvChar s (some c) = none) (rest : Str) :
+    csvFlat s (c :: rest) = ([], true) := by
+  rw [csvFlat, h]
+
+theorem csvEsc_append (a b : Str) : csvEsc (a ++ b) = csvEsc a ++ csvEsc b := by
+  simp [csvEsc]
+
+/-- a written field longer than the limit makes the reader fail inside the field -/
+theorem csvFlat_field_too_long (q : Bool) (f : Str) (hf : csvFieldLimit < f.length) (row : List Str)
+    (rest : Str) :
+    csvFlat ⟨.startField, [], row⟩ (csvFieldQ q f ++ rest) = ([], true) := by
+  obtain ⟨a, c, b, rfl, ha⟩ : ∃ a c b, f = a ++ c :: b ∧ a.length = csvFieldLimit := by
+    have hd : f.drop csvFieldLimit ≠ [] := by
+      intro h
+      have := congrArg List.length h
+      simp only [List.length_drop, List.length_nil] at this
+      omega
+    obtain ⟨c, b, hcb⟩ := List.exists_cons_of_ne_nil hd
+    exact ⟨f.take csvFieldLimit, c, b, by rw [← hcb, List.take_append_drop],
+      by rw [List.length_take]; omega⟩
+  by_cases h : q = true ∨ (a ++ c :: b).any csvSpecial = true
+  · rw [csvFieldQ_quoted h, csvEsc_append]
+    have e1 : ('"' :: (csvEsc a ++ csvEsc (c :: b) ++ ['"'])) ++ rest =
+        '"' :: (csvEsc a ++ (csvEsc (c :: b) ++ '"' :: rest)) := by simp
+    have h1 : csvChar ⟨.startField, [], row⟩ (some '"') = some ⟨.inQuoted, [], row⟩ := rfl
+    rw [e1, csvFlat_mid (by decide) (by simp) h1,
+      csvFlat_inQuoted_run a [] row _ (by simp) (by simp [ha])]
+    have hlen : csvFieldLimit ≤ a.length := by omega
+    by_cases hc : c = '"'
+    · subst hc
+      have h2 : csvChar ⟨.inQuoted, a.reverse ++ [], row⟩ (some '"') =
+          some ⟨.quoteInQuoted, a.reverse ++ [], row⟩ := rfl
+      have h3 : csvChar ⟨.quoteInQuoted, a.reverse ++ [], row⟩ (some '"') = none := by
+        simp [csvChar, CsvSt.add, hlen]
+      rw [csvEsc_cons_quote, List.cons_append, List.cons_append,
+        csvFlat_mid (by decide) (by simp) h2, csvFlat_error h3]
+    · have h2 : csvChar ⟨.inQuoted, a.reverse ++ [], row⟩ (some c) = none := by
+        simp [csvChar, CsvSt.add, hc, hlen]
+      rw [csvEsc_cons_char hc, List.cons_append, csvFlat_error h2]
+  · have hq : q = false := by cases q <;> simp_all
+    have h' : (a ++ c :: b).any csvSpecial = false := by simpa using fun h2 => h (Or.inr h2)
+    subst hq
+    rw [csvFieldQ_raw h']
+    have hs := not_special h'
+    cases a with
+    | nil => simp [csvFieldLimit] at ha
+    | cons c0 a' =>
+      have hc0 := hs c0 (by simp)
+      have hc := hs c (by simp)
+      simp only [List.length_cons] at ha
+      have h1 : csvChar ⟨.startField, [], row⟩ (some c0) = some ⟨.inField, [c0], row⟩ := by
+        simp [csvChar, csvStartField, hc0.1, hc0.2.1, hc0.2.2.1, hc0.2.2.2, CsvSt.add, csvFieldLimit]
+      have hlen : csvFieldLimit ≤ a'.length + 1 := by omega
+      have h2 : csvChar ⟨.inField, a'.reverse ++ [c0], row⟩ (some c) = none := by
+        simp [csvChar, CsvSt.add, hc.1, hc.2.2.1, hc.2.2.2, hlen]
+      simp only [List.cons_append, List.append_assoc]
+      rw [csvFlat_mid hc0.2.2.2 (by simp) h1,
+        csvFlat_inField_run a' (fun x hx => hs x (by simp [hx])) _ _ _ (by simp)
+          (by simp only [List.length_cons, List.length_nil]; omega),
+        csvFlat_error h2]
+
+/-- the same at the beginning of a record -/
+theorem csvFlat_init_field_too_long (q : Bool) (f : Str) (hf : csvFieldLimit < f.length)
+    (rest : Str) :
+    csvFlat .init (csvFieldQ q f ++ rest) = ([], true) := by
+  have hne : f ≠ [] := by
+    intro h; subst h; simp at hf
+  obtain ⟨c, cs, hc, h1, h2⟩ : ∃ c cs, csvFieldQ q f ++ rest = c :: cs ∧ c ≠ '\n' ∧ c ≠ '\r' := by
+    by_cases h : q = true ∨ f.any csvSpecial = true
+    · exact ⟨'"', _, by rw [csvFieldQ_quoted h]; rfl, by decide, by decide⟩
+    · have hq : q = false := by cases q <;> simp_all
+      have h' : f.any csvSpecial = false := by simpa using fun h2 => h (Or.inr h2)
+      subst hq
+      cases f with
+      | nil => contradiction
+      | cons c cs =>
+        have := not_special h' c (by simp)
+        exact ⟨c, _, by rw [csvFieldQ_raw h']; rfl, this.2.2.2, this.2.2.1⟩
+  have := csvFlat_field_too_long q f hf [] rest
+  rw [hc] at this ⊢
+  change csvFlat ⟨.startRecord, [], []⟩ _ = _
+  rw [csvFlat_startRecord_char _ _ _ h1 h2, this]
+
+/-! ### the library's writer is one of them -/
+
+/-- quoting choices of `csv.writer` with `QUOTE_MINIMAL`: only a single empty field -/
+def csvMarks (fields : List Str) : List (Bool × Str) :=
+  if fields = [[]] then [(true, [])] else fields.map fun f => (false, f)
+
+theorem csvMarks_snd (fields : List Str) : (csvMarks fields).map (·.2) = fields := by
+  unfold csvMarks
+  split
+  · next h => subst h; rfl
+  · simp [List.map_map, Function.comp_def]
+
+theorem csvMarks_ok {fields : List Str} (h : fields ≠ []) : CsvRowOk (csvMarks fields) := by
+  unfold csvMarks
+  split
+  · exact ⟨by simp, by simp⟩
+  · next hne =>
+    refine ⟨by simpa using h, ?_⟩
+    intro he
+    apply hne
+    have := congrArg (List.map (·.2)) he
+    simpa [List.map_map, Function.comp_def] using this
+
+theorem csvRow_eq (fields : List Str) : csvRow fields = csvRowQ true (csvMarks fields) := by
+  unfold csvRow csvMarks
+  split
+  · simp [csvRowQ, csvFieldQ, csvEsc, joinWith, csvTerm]
+  · next hne =>
+    have : ¬ fields = [[]] := fun h => hne h
+    rw [if_neg this, csvRowQ, List.map_map]
+    have : ((fun f : Bool × Str => csvFieldQ f.1 f.2) ∘ fun f => (false, f)) = csvField := by
+      funext s; simp [csvField_eq]
+    rw [this]; rfl
+
+theorem csvText_eq (rows : List (List Str)) :
+    rows.flatMap csvRow = csvTextQ (rows.map fun r => (true, csvMarks r)) := by
+  rw [csvTextQ, List.flatMap_map]
+  congr 1
+  funext r
+  exact csvRow_eq r
+
+/-- `csv.reader` inverts `csv.writer` on every list of non-empty rows (fields within the field
+size limit of the reader) -/
+theorem csvRead_rows (rs : List (List Str)) (h : ∀ r ∈ rs, r ≠ [])
+    (hl : ∀ r ∈ rs, ∀ f ∈ r, f.length ≤ csvFieldLimit) :
+    csvRead (rs.flatMap csvRow) = (rs, false) := by
+  rw [csvText_eq, csvRead_textQ]
+  · simp [List.map_map, Function.comp_def, csvMarks_snd]
+  · intro r hr
+    simp only [List.mem_map] at hr
+    obtain ⟨x, hx, rfl⟩ := hr
+    refine ⟨csvMarks_ok (h x hx), ?_⟩
+    intro f hf
+    have : f.2 ∈ (csvMarks x).map (·.2) := List.mem_map_of_mem hf
+    rw [csvMarks_snd] at this
+    exact hl x hx _ this
+
+theorem csvParse_of_read {t : Str} {rows : List (List Str)} (h : csvRead t = (rows, false)) :
+    csvParse t = some rows := by
+  simp [csvParse, h]
 
 end FCA
